@@ -73,8 +73,8 @@ type c11AttScript struct {
 	// injected block-wait faults (the context is NOT cancelled): the direct
 	// wait for the announcement start, the wait that ends the announcement,
 	// the wait that ends the done check (signing) return an error
-	DirectWaitErr bool
-	AnnEndWaitErr bool
+	DirectWaitErr  bool
+	AnnEndWaitErr  bool
 	TimeoutWaitErr bool
 }
 
@@ -139,23 +139,23 @@ type c11Member struct {
 	stopped  bool
 	gwCh     chan uint64
 
-	mu         sync.Mutex
-	iter       uint // loop iterations seen (current-block reads for signing, direct waits for dkg)
-	lastDirect *uint64
+	mu          sync.Mutex
+	iter        uint // loop iterations seen (current-block reads for signing, direct waits for dkg)
+	lastDirect  *uint64
 	lastDirectH *uint64
-	iterOpen   bool // the current iteration was already opened by a current-block read
+	iterOpen    bool // the current iteration was already opened by a current-block read
 	lateReturns int
-	gwInIter   int // goroutine waits registered since the last direct wait
-	faults     []c11Fault
-	annLog     []c11AnnRec
-	lastRead   *uint64
-	curAttempt uint
-	obs        map[uint]*c11AttemptObs
-	reads      []c11Read
-	announced  []uint
-	failed     int // failed / skipped attempts seen
-	trouble    string
-	r          *verifkit.Run
+	gwInIter    int // goroutine waits registered since the last direct wait
+	faults      []c11Fault
+	annLog      []c11AnnRec
+	lastRead    *uint64
+	curAttempt  uint
+	obs         map[uint]*c11AttemptObs
+	reads       []c11Read
+	announced   []uint
+	failed      int // failed / skipped attempts seen
+	trouble     string
+	r           *verifkit.Run
 }
 
 func (m *c11Member) script(i uint) c11AttScript {
@@ -740,7 +740,7 @@ func TestVerif_C11_Windows(t *testing.T) {
 		}
 		type win struct {
 			annStart, annEnd, pStart, timeout uint64
-			hasAS, hasAE, hasPS, hasTO    bool
+			hasAS, hasAE, hasPS, hasTO        bool
 		}
 		wins := map[uint]*win{}
 		var localAttempts, localSkips, localOverlaps, localNonuniform, localLateDkg, localDecisions, localLateReturns int64
